@@ -13,6 +13,8 @@ for ID in "$@"; do
   mkdir -p $OUT
   LOG=$OUT/verify.log; : > $LOG
   cp $SRC/patch.diff $OUT/patch.diff
+  PATCH=$SRC/patch.diff
+  if [ -f $SRC/patch.rebased.diff ]; then cp $SRC/patch.rebased.diff $OUT/patch.rebased.diff; PATCH=$SRC/patch.rebased.diff; fi
   [ -f $SRC/notes.md ] && cp $SRC/notes.md $OUT/notes.md
   [ -f $SRC/demo_path.txt ] && cp $SRC/demo_path.txt $OUT/demo_path.txt
   # place demo files: any *_test.go / other files keeping relative dirs when present
@@ -34,7 +36,7 @@ for ID in "$@"; do
   echo "demo dir: $DEMODIR ; cmd: $CMD" >> $LOG
   cd $WT
   echo "--- clean tree + demo" >> $LOG; ( eval "$CMD" ) >> $LOG 2>&1; R_CLEAN=$?
-  if git apply --3way $SRC/patch.diff >> $LOG 2>&1 || git apply $SRC/patch.diff >> $LOG 2>&1; then APPLY=0; else APPLY=1; fi
+  if git apply --3way $PATCH >> $LOG 2>&1 || git apply $PATCH >> $LOG 2>&1; then APPLY=0; else APPLY=1; fi
   git reset -q
   echo "--- changed tree + demo" >> $LOG; ( eval "$CMD" ) >> $LOG 2>&1; R_MUT=$?
   # existing suite without the demo files
